@@ -598,3 +598,36 @@ class SCplx:
 
     def __neg__(self):
         return SCplx(-self.re, -self.im)
+
+
+_SYM_CACHE = {}
+
+
+def term_syms(t):
+    """Names of the uninterpreted constants/functions occurring in a z3 term."""
+    key = t.get_id()
+    hit = _SYM_CACHE.get(key)
+    if hit is not None and hit[0].eq(t):     # ids are only unique among live terms: keep the term alive
+        return hit[1]
+    out = set()
+    seen = set()
+    stack = [t]
+    while stack:
+        x = stack.pop()
+        i = x.get_id()
+        if i in seen:
+            continue
+        seen.add(i)
+        if z3.is_app(x):
+            d = x.decl()
+            if d.kind() == z3.Z3_OP_UNINTERPRETED:
+                out.add(d.name())
+            stack.extend(x.children())
+        elif z3.is_quantifier(x):
+            stack.append(x.body())
+    if len(_SYM_CACHE) > 100000:
+        _SYM_CACHE.clear()
+    _SYM_CACHE[key] = (t, out)
+    return out
+
+
